@@ -625,3 +625,12 @@ Definition dz_observe (c : dz_cfg) (ce : option bytes) (calls : list (Z * option
 
 (* all delivered bytes, in order *)
 Definition dz_delivered (ob : dz_obs) : bytes := concat (map dd_bytes (ob_events ob)).
+
+(* executable premise used by the check (finding F21): some decoder call consumed all it was offered AND filled the output
+   buffer while reporting Z_OK -- output may still be pending inside the decoder, and only a later call can fetch it *)
+Definition dz_tail_risk (recs : list dz_rec) : bool :=
+  existsb (fun r => match r with
+                    | RInflate ain aout _ cn rc out => (rc =? c_dz_Z_OK) && (Z.of_nat cn =? ain) && (Z.of_nat (length out) =? aout)
+                    | RDecode ain aout _ cn rc _ out => (rc =? c_dz_SZ_OK) && (Z.of_nat cn =? ain) && (Z.of_nat (length out) =? aout)
+                    | _ => false
+                    end) recs.
